@@ -65,3 +65,10 @@ func objID(o osm.Object) string {
 }
 
 var _ = gen.New
+
+func max1(v int) int {
+	if v < 1 {
+		return 1
+	}
+	return v
+}
